@@ -36,16 +36,85 @@ Section FLg.
     exists b'. rewrite E1. split; [exact E3|]. rewrite <- E6. symmetry. eapply brel_kind. exact E4.
   Qed.
 
+  (* ---------- binders that would capture the continuation (repair <commitcap>) ----------
+     The translation places the continuation under the binder of a let / the binders of the patterns of a case.
+     When a name of a binder occurs free in the continuation, the continuation is first NAMED by a fresh
+     covariable: < mu a. [[t]]_a | cont >, and the term is translated with the covariable as continuation.
+     The fundamental lemma for such a term is proved for the inner translation under the hypothesis that no binder
+     occurs in the continuation (flw_in); fl_guard then gives it for the guarded translation, in both cases. *)
+  Lemma captures_notin : forall binders cont, captures binders cont = false ->
+    forall b, In b binders -> ~ In (new_id b) (cnames (fvt cont)).
+  Proof.
+    intros binders cont H b Hb Hin. unfold captures in H.
+    assert (E : existsb (fun b0 => existsb (fun bb => String.eqb (fst (cbvar bb)) b0) (tfv_term cont [])) binders = true).
+    { apply existsb_exists. exists b. split; [exact Hb|]. apply existsb_exists.
+      apply in_cnames_inv in Hin. destruct Hin as [bb [Hbb Eb]]. exists bb. split; [exact Hbb|].
+      rewrite Eb. simpl. apply String.eqb_refl. }
+    rewrite E in H. discriminate H.
+  Qed.
+
+  Definition flw_in (N : nat) (t : fterm) (binders : list fname) (W : string -> cterm -> M cstmt) : Prop :=
+    forall n, (n <= N)%nat -> forall G cur cont st s st' e ce k,
+      W cur cont st = Ok (s, st') ->
+      (forall b, In b binders -> ~ In (new_id b) (cnames (fvt cont))) ->
+      frag p t = true -> kd p t = true -> ws G t = true ->
+      lifted_ok cp st' -> Gused G st -> incl (bnd t) (st_used_vars st) ->
+      names_in (cnames (fvt cont)) st ->
+      cont_shape cp (tkind p t) cont ->
+      erel p cp n G (Sof (fvs s)) e ce ->
+      CK p cp n (tkind p t) k cont ce (Sof (fvs s)) ->
+      sim p cp n (FEval t e k) (SNext (Run s ce)).
+
+  Lemma fl_guard : forall N t binders (W : string -> cterm -> M cstmt) lty,
+    (forall cur cont, wc (codata_of p) cur false t cont = guard_capture false binders (W cur) lty cont) ->
+    fterm_type t = lty ->
+    flw_in N t binders W -> flw p cp N t.
+  Proof.
+    intros N t binders W lty HW Hty Hin.
+    intros n Hn G cur cont st s st' e ce k Hwc Hf Hkd Hws Hl HG Hbn Hni Hsh He HCK.
+    rewrite HW in Hwc. apply guard_capture_inv in Hwc.
+    destruct Hwc as [[Hc Hw] | [Hc [ty0 [a [sta [s0 [Ety [Ha [Hc' [Hw Es]]]]]]]]]].
+    - apply (Hin n Hn G cur cont st s st' e ce k Hw (captures_notin _ _ Hc)); assumption.
+    - subst s lty.
+      assert (Hkind : is_codata cp (compile_ty ty0) = tkind p t).
+      { rewrite (is_codata_compile p cp Hcod). unfold tkind. rewrite Ety. reflexivity. }
+      assert (HKS : KS p cp n (tkind p t) k cont ce).
+      { apply (proj2 HCK). intros x Hx. unfold Sof. apply in_cnames_inv in Hx. destruct Hx as [bb [Hbb E]]. subst x.
+        apply in_cnames. apply fvs_cut. right. exact Hbb. }
+      destruct (KS_cut p cp n (tkind p t) k cont ce (CMu CPrd (new_id a) s0 (compile_ty ty0)) (compile_ty ty0) Hsh HKS I)
+        as [kv [Hr Hk]].
+      apply sim_cstep. eapply sim_rreach; [|exact Hr].
+      assert (Ei : cut_with_k (is_codata cp (compile_ty ty0)) (CMu CPrd (new_id a) s0 (compile_ty ty0)) ce kv =
+                   SNext (Run s0 ((new_id a, BK kv) :: ce))).
+      { simpl. rewrite Hkind. destruct (tkind p t) eqn:Ek; [|reflexivity].
+        pose proof (Kk_ok p cp n k kv Hk) as Hok. destruct kv; simpl in Hok; try contradiction; reflexivity. }
+      rewrite Ei.
+      destruct (fresh_in_vars_inv _ _ _ _ Ha) as [Hfresh [Hused _]].
+      assert (Hgr : grows st sta) by (eapply mgrows_fresh_covar; exact Ha).
+      apply (Hin n Hn G cur (CXVar CCns (new_id a) (compile_ty ty0)) sta s0 st' e _ k Hw (captures_notin _ _ Hc') Hf Hkd Hws Hl).
+      + eapply Gused_grows; eauto.
+      + eapply incl_grows; eauto.
+      + intros x Hx. simpl in Hx. destruct Hx as [Hx|[]]. subst x.
+        exists a. split; [reflexivity|]. rewrite Hused. left. reflexivity.
+      + exact I.
+      + eapply erel_gen; [exact He | |].
+        * intros bb Hbb E. destruct (HG bb Hbb) as [x [Ex Hx]]. rewrite Ex in E. apply new_id_inj in E. subst x. exact (Hfresh Hx).
+        * intros x Hx Hne. unfold Sof in *. apply in_cnames_inv in Hx. destruct Hx as [bb [Hbb E]]. subst x.
+          apply in_cnames. apply fvs_cut. left. apply fvt_mu_2; [exact Hbb|]. intros Eb. subst bb. apply Hne. reflexivity.
+      + apply CK_covar with (kv := kv); [|exact Hk]. rewrite clookup_cons, cid_eqb_refl. reflexivity.
+  Qed.
+
   (* ---------- let ---------- *)
-  Lemma fl_let : forall N v vty t1 t2 ty, flw p cp N t1 -> flt p cp N t1 -> flw p cp N t2 ->
-    flw p cp N (FLet v vty t1 t2 ty).
+  Lemma fl_let_in : forall N v vty t1 t2 ty, flw p cp N t1 -> flt p cp N t1 -> flw p cp N t2 ->
+    flw_in N (FLet v vty t1 t2 ty) [v]
+      (fun cur => wc_let (codata_of p) v vty (cmp (codata_of p) cur false t1) (wc (codata_of p) cur false t1)
+                         (wc (codata_of p) cur false t2)).
   Proof.
     intros N v vty t1 t2 ty H1 HT1 H2.
-    intros n Hn G cur cont st s st' e ce k Hwc Hf Hkd Hws Hnc Hl HG Hbn Hni H8 Hsh He HCK.
-    rewrite wc_unfold in Hwc. simpl in Hf, Hkd, Hws, Hnc.
+    intros n Hn G cur cont st s st' e ce k Hwc H8 Hf Hkd Hws Hl HG Hbn Hni Hsh He HCK.
+    simpl in Hf, Hkd, Hws.
     apply andb_prop in Hf. destruct Hf as [Hf1 Hf2].
     apply andb_prop in Hws. destruct Hws as [Hw1 Hw2].
-    apply andb_prop in Hnc. destruct Hnc as [Hnn Hn2]. apply andb_prop in Hnn. destruct Hnn as [Hdisj Hn1].
     apply andb_prop in Hkd. destruct Hkd as [Hkd Hsame]. apply andb_prop in Hkd. destruct Hkd as [Hkd Hkb].
     apply andb_prop in Hkd. destruct Hkd as [Hk1 Hk2]. apply Bool.eqb_prop in Hsame. apply Bool.eqb_prop in Hkb.
     assert (Hkind : tkind p (FLet v vty t1 t2 ty) = tkind p t2) by (unfold tkind at 1; simpl; symmetry; exact Hsame).
@@ -65,7 +134,7 @@ Section FLg.
       assert (Hg1 : grows st st1) by (eapply wc_grows; exact Hbody).
       assert (Hg2 : grows st1 st') by (eapply cmp_grows; exact Hpb).
       assert (Hcdc : is_codata cp (compile_ty vty) = true) by (rewrite (is_codata_compile p cp Hcod); exact Hcd).
-      destruct (HT1 n Hn G cur (compile_ty vty) st1 pb st' e ce Hpb Hf1 Hk1 Hkb Hw1 Hn1 Hl) as [pv [_ [Hcut [_ [HCo _]]]]].
+      destruct (HT1 n Hn G cur (compile_ty vty) st1 pb st' e ce Hpb Hf1 Hk1 Hkb Hw1 Hl) as [pv [_ [Hcut [_ [HCo _]]]]].
       { eapply Gused_grows; eauto. }
       { eapply incl_grows; eauto. }
       { exact Hcdc. }
@@ -77,12 +146,11 @@ Section FLg.
                 Sof (fvs (CCut pb (compile_ty vty) (CMu CCns (new_id v) body (compile_ty vty)))) x).
       { intros x Hx Hne. unfold Sof in *. apply in_cnames_inv in Hx. destruct Hx as [bb [Hbb E]]. subst x.
         apply in_cnames. apply fvs_cut. right. apply fvt_mu_2; [exact Hbb|]. intros Eb. subst bb. apply Hne. reflexivity. }
-      apply (H2 n1 ltac:(lia) (vb :: G) cur cont st body st1 ((v, FbP (FvThunk t1 e)) :: e) _ k Hbody Hf2 Hk2 Hw2 Hn2).
+      apply (H2 n1 ltac:(lia) (vb :: G) cur cont st body st1 ((v, FbP (FvThunk t1 e)) :: e) _ k Hbody Hf2 Hk2 Hw2).
       + eapply lifted_ok_grows; eauto.
       + exact HG'.
       + exact Hb2.
       + exact Hni.
-      + intros x Hx. apply H8. simpl. right. apply in_or_app. right. exact Hx.
       + exact Hsh.
       + eapply (erel_bind1 p cp n1 G _ (Sof (fvs body)) e ce v CPrd (compile_ty vty) (FbP (FvThunk t1 e)) (BP pv)).
         * eapply erel_weaken; [exact He | | lia]. intros x Hx. exact Hx.
@@ -126,18 +194,13 @@ Section FLg.
       destruct n as [|n1]; [apply sim_zero|].
       eapply sim_fstep; [simpl; rewrite Hcd; reflexivity|].
       rewrite <- Hkb in Hsh'.
-      apply (H1 n1 ltac:(lia) G cur ncont st1 s st' e ce (FkLet v t2 e k) Hbound Hf1 Hk1 Hw1 Hn1 Hl).
+      apply (H1 n1 ltac:(lia) G cur ncont st1 s st' e ce (FkLet v t2 e k) Hbound Hf1 Hk1 Hw1 Hl).
       + eapply Gused_grows; eauto.
       + eapply incl_grows; eauto.
       + intros x Hx. apply in_cnames_inv in Hx. destruct Hx as [bb [Hbb E]]. subst x.
         destruct (Hnc_src bb Hbb) as [[Hg _]|[Hc _]].
         * destruct (inG_used G _ bb st HG Hg) as [y [Ey Hy]]. exists y. split; [exact Ey|]. eapply grows_vars_incl; eauto.
         * eapply names_in_grows; [exact Hni | exact Hg1 | apply in_cnames; exact Hc].
-      + intros x Hx Hin. apply in_cnames_inv in Hin. destruct Hin as [bb [Hbb E]].
-        destruct (Hnc_src bb Hbb) as [[Hg _]|[Hc _]].
-        * destruct (inG_name _ _ _ Hg) as [y [Ey Hy]]. rewrite E in Ey. apply new_id_inj in Ey. subst y.
-          apply (disj_spec _ _ Hdisj x Hx). right. exact Hy.
-        * apply (H8 x); [simpl; right; apply in_or_app; left; exact Hx|]. rewrite <- E. apply in_cnames. exact Hc.
       + exact Hsh'.
       + eapply erel_weaken; [exact He | | lia]. intros x Hx. exact Hx.
       + rewrite Hkb. split.
@@ -150,12 +213,11 @@ Section FLg.
           eapply sim_fstep; [reflexivity|].
           assert (Hnames : forall x, Sof (fvs body) x -> x <> new_id v -> Sof (fvs s) x).
           { intros x Hx Hne. apply Hall. apply names_neq_mu; assumption. }
-          apply (H2 j1 ltac:(lia) (vb :: G) cur cont st body st1 ((v, FbP val) :: e) env k Hbody Hf2 Hk2 Hw2 Hn2).
+          apply (H2 j1 ltac:(lia) (vb :: G) cur cont st body st1 ((v, FbP val) :: e) env k Hbody Hf2 Hk2 Hw2).
           -- eapply lifted_ok_grows; eauto.
           -- exact HG'.
           -- exact Hb2.
           -- exact Hni.
-          -- intros x Hx. apply H8. simpl. right. apply in_or_app. right. exact Hx.
           -- exact Hsh.
           -- eapply erel_agree with (S := Sof (fvs body)) (ce := (new_id v, BP pv) :: ce).
              ++ eapply (erel_bind1 p cp j1 G (Sof (fvs s)) (Sof (fvs body)) e ce v CPrd (compile_ty vty) (FbP val) (BP pv)).
@@ -173,25 +235,32 @@ Section FLg.
              assert (Hx : cident_eqb (new_id v) x = false) by (apply cid_eqb_neq; congruence).
              rewrite Hx. reflexivity.
   Qed.
+  Lemma fl_let : forall N v vty t1 t2 ty, flw p cp N t1 -> flt p cp N t1 -> flw p cp N t2 ->
+    flw p cp N (FLet v vty t1 t2 ty).
+  Proof.
+    intros N v vty t1 t2 ty H1 HT1 H2.
+    eapply fl_guard; [| |apply fl_let_in; assumption].
+    - intros cur cont. rewrite wc_unfold. reflexivity.
+    - reflexivity.
+  Qed.
 
   (* ---------- label ---------- *)
   Lemma label_core : forall N l t, flw p cp N t ->
     forall n, (n <= N)%nat -> forall G cur ty0 st s0 st' e ce k kv (S : cident -> Prop),
     wc (codata_of p) cur false t (CXVar CCns (new_id l) (compile_ty ty0)) st = Ok (s0, st') ->
     frag p t = true -> kd p t = true -> tkind p t = false ->
-    ws (mkcb (new_id l) CCns (compile_ty ty0) :: G) t = true -> nocap t = true ->
-    ~ In l (bnd t) -> In l (st_used_vars st) ->
+    ws (mkcb (new_id l) CCns (compile_ty ty0) :: G) t = true ->
+    In l (st_used_vars st) ->
     lifted_ok cp st' -> Gused G st -> incl (bnd t) (st_used_vars st) ->
     erel p cp n G S e ce -> (forall x, Sof (fvs s0) x -> x <> new_id l -> S x) ->
     Kb p cp n k kv ->
     sim p cp n (FEval t ((l, FbK k) :: e) k) (SNext (Run s0 ((new_id l, BK kv) :: ce))).
   Proof.
-    intros N l t H n Hn G cur ty0 st s0 st' e ce k kv S Hwc Hf Hkd Hk0 Hw Hnc Hlb Hlu Hl HG Hbn He HS Hk.
-    apply (H n Hn (mkcb (new_id l) CCns (compile_ty ty0) :: G) cur _ st s0 st' _ _ k Hwc Hf Hkd Hw Hnc Hl).
+    intros N l t H n Hn G cur ty0 st s0 st' e ce k kv S Hwc Hf Hkd Hk0 Hw Hlu Hl HG Hbn He HS Hk.
+    apply (H n Hn (mkcb (new_id l) CCns (compile_ty ty0) :: G) cur _ st s0 st' _ _ k Hwc Hf Hkd Hw Hl).
     - intros bb [E|Hbb]; [subst bb; exists l; split; [reflexivity | exact Hlu] | apply HG; exact Hbb].
     - exact Hbn.
     - intros x Hx. simpl in Hx. destruct Hx as [Hx|[]]. subst x. exists l. split; [reflexivity | exact Hlu].
-    - intros x Hx Hin. simpl in Hin. destruct Hin as [Hin|[]]. apply new_id_inj in Hin. subst x. exact (Hlb Hx).
     - exact I.
     - eapply (erel_bind1 p cp n G S (Sof (fvs s0)) e ce l CCns (compile_ty ty0) (FbK k) (BK kv)); auto.
       simpl. exact I.
@@ -201,11 +270,10 @@ Section FLg.
   Lemma fl_label : forall N l t ty, flw p cp N t -> flw p cp N (FLabel l t ty) /\ flc p cp N (FLabel l t ty).
   Proof.
     intros N l t ty H. split.
-    - intros n Hn G cur cont st s st' e ce k Hwc Hf Hkd Hws Hnc Hl HG Hbn Hni H8 Hsh He HCK.
+    - intros n Hn G cur cont st s st' e ce k Hwc Hf Hkd Hws Hl HG Hbn Hni Hsh He HCK.
       rewrite wc_unfold in Hwc. apply wc_label_inv in Hwc. destruct Hwc as [ty0 [s0 [Ety [Hs0 Es]]]]. subst s ty.
-      simpl in Hf, Hkd, Hws, Hnc.
-      apply andb_prop in Hf. destruct Hf as [Hdt Hf]. apply andb_prop in Hnc. destruct Hnc as [Hlb Hnc].
-      apply negb_true_iff in Hlb. apply mem_false_not_In in Hlb.
+      simpl in Hf, Hkd, Hws.
+      apply andb_prop in Hf. destruct Hf as [Hdt Hf].
       apply andb_prop in Hkd. destruct Hkd as [Hkd Hkty]. apply andb_prop in Hkd. destruct Hkd as [Hkd Hk0].
       apply negb_true_iff in Hk0. apply negb_true_iff in Hkty.
       assert (Hkind : tkind p (FLabel l t (Some ty0)) = false) by (unfold tkind; simpl; exact Hkty).
@@ -225,11 +293,10 @@ Section FLg.
       + intros x Hx Hne. unfold Sof in *. apply in_cnames_inv in Hx. destruct Hx as [bb [Hbb E]]. subst x.
         apply in_cnames. apply fvs_cut. left. apply fvt_mu_2; [exact Hbb|]. intros Eb. subst bb. apply Hne. reflexivity.
       + eapply Kb_mono; [exact Hk | lia].
-    - intros n Hn G cur ty' st c st' e ce k m Hc Hf Hkd Hkk Hws Hnc Hl HG Hbn Hty He HK.
+    - intros n Hn G cur ty' st c st' e ce k m Hc Hf Hkd Hkk Hws Hl HG Hbn Hty He HK.
       rewrite cmp_unfold in Hc. apply cmp_label_inv in Hc. destruct Hc as [ty0 [s0 [Ety [Hs0 Ec]]]]. subst c ty.
-      simpl in Hf, Hkd, Hws, Hnc.
-      apply andb_prop in Hf. destruct Hf as [Hdt Hf]. apply andb_prop in Hnc. destruct Hnc as [Hlb Hnc].
-      apply negb_true_iff in Hlb. apply mem_false_not_In in Hlb.
+      simpl in Hf, Hkd, Hws.
+      apply andb_prop in Hf. destruct Hf as [Hdt Hf].
       apply andb_prop in Hkd. destruct Hkd as [Hkd Hkty]. apply andb_prop in Hkd. destruct Hkd as [Hkd Hk0].
       apply negb_true_iff in Hk0.
       assert (Hcd : is_codata cp (compile_ty ty0) = false).
@@ -249,22 +316,20 @@ Section FLg.
   Lemma fl_goto : forall N l t ty, flw p cp N t -> flw p cp N (FGoto l t ty).
   Proof.
     intros N l t ty H.
-    intros n Hn G cur cont st s st' e ce k Hwc Hf Hkd Hws Hnc Hl HG Hbn Hni H8 Hsh He HCK.
+    intros n Hn G cur cont st s st' e ce k Hwc Hf Hkd Hws Hl HG Hbn Hni Hsh He HCK.
     rewrite wc_unfold in Hwc. apply wc_goto_inv in Hwc. destruct Hwc as [ty0 [Ety Hs]].
-    simpl in Hf, Hkd, Hws, Hnc.
-    apply andb_prop in Hws. destruct Hws as [Hw1 Hw2]. apply andb_prop in Hnc. destruct Hnc as [Hlb Hnc].
-    apply negb_true_iff in Hlb. apply mem_false_not_In in Hlb.
+    simpl in Hf, Hkd, Hws.
+    apply andb_prop in Hws. destruct Hws as [Hw1 Hw2].
     apply andb_prop in Hkd. destruct Hkd as [Hkd Hk0]. apply negb_true_iff in Hk0.
     apply var_ok_inv in Hw1. destruct Hw1 as [ty1 [E1 Hg]]. rewrite Ety in E1. injection E1 as E1. subst ty1.
     destruct n as [|n1]; [apply sim_zero|].
     destruct (flookup e l) as [[val|k']|] eqn:El;
       [eapply sim_stuck; simpl; rewrite El; reflexivity | | eapply sim_stuck; simpl; rewrite El; reflexivity].
     eapply sim_fstep; [simpl; rewrite El; reflexivity|].
-    apply (H n1 ltac:(lia) G cur _ st s st' e ce k' Hs Hf Hkd Hw2 Hnc Hl HG).
+    apply (H n1 ltac:(lia) G cur _ st s st' e ce k' Hs Hf Hkd Hw2 Hl HG).
     - intros z Hz. apply Hbn. exact Hz.
     - intros x Hx. simpl in Hx. destruct Hx as [Hx|[]]. subst x.
       destruct (HG _ (gl_In _ _ _ Hg)) as [y [Ey Hy]]. exists y. split; [exact Ey | exact Hy].
-    - intros x Hx Hin. simpl in Hin. destruct Hin as [Hin|[]]. apply new_id_inj in Hin. subst x. exact (Hlb Hx).
     - exact I.
     - eapply erel_weaken; [exact He | | lia]. intros x Hx. exact Hx.
     - (* the target covariable means the continuation found in the source environment *)
